@@ -82,6 +82,8 @@ def cases(rng, tier):
     out = []
     for r in rows:
         out.append({"t": "cell", "cell": r, "seed": rng.getrandbits(40)})
+        if r["req"] == "par" or rng.random() < 0.15:
+            out.append({"t": "cell", "cell": r, "seed": rng.getrandbits(40), "reload": True})
     return out
 
 
@@ -203,6 +205,10 @@ def impl(c):
         sent = rp.get_context().cstate.get(state)
         obs["sent"] = {"nonce": sent.get("nonce"), "scope": sent.get("scope"), "state": state}
         obs["stage"] = "authorization"
+        if c.get("reload"):
+            # the provider's state goes through an export / import (a JSON text) between the request's first leg — the pushed request,
+            # where there is one — and the authorization request: every cell must complete all the same
+            server.context.load(json.loads(json.dumps(server.context.dump())))
         params, how = tandem.browser(server, url, log)
         if "__error__" in params:
             obs["why"] = json.dumps(params["__error__"])[:200]
